@@ -44,6 +44,46 @@ def token_const(node, consts):
     return None
 
 
+def class_collections(cls, consts):
+    """class-level constants of the parser class that are COLLECTIONS of token types (a hand-edit may move an inline lookahead set there):
+    evaluated in source order from displays, frozenset/set/list/tuple/range calls and | & - of earlier ones. name -> frozenset of ints"""
+    env = {k: v for k, v in consts.items() if isinstance(v, int)}
+    out = {}
+
+    def ev(n):
+        if isinstance(n, ast.Constant) and isinstance(n.value, int):
+            return n.value
+        if isinstance(n, ast.Name):
+            if n.id in out:
+                return out[n.id]
+            if n.id in env:
+                return env[n.id]
+            raise Unsupported("name %s in a class-level constant" % n.id)
+        if isinstance(n, ast.Attribute) and isinstance(n.value, ast.Name) and n.value.id == "blackbirdParser":
+            return ev(ast.Name(id=n.attr, ctx=ast.Load()))
+        if isinstance(n, (ast.List, ast.Tuple, ast.Set)):
+            return frozenset(ev(x) for x in n.elts)
+        if isinstance(n, ast.Call) and isinstance(n.func, ast.Name) and not n.keywords:
+            if n.func.id in ("frozenset", "set", "list", "tuple") and len(n.args) <= 1:
+                return frozenset(ev(n.args[0])) if n.args else frozenset()
+            if n.func.id == "range" and 1 <= len(n.args) <= 3:
+                return frozenset(range(*[ev(a) for a in n.args]))
+        if isinstance(n, ast.BinOp) and isinstance(n.op, (ast.BitOr, ast.BitAnd, ast.Sub)):
+            a, b = ev(n.left), ev(n.right)
+            if isinstance(a, frozenset) and isinstance(b, frozenset):
+                return a | b if isinstance(n.op, ast.BitOr) else a & b if isinstance(n.op, ast.BitAnd) else a - b
+        raise Unsupported("construct %s in a class-level constant" % type(n).__name__)
+    for st in cls.body:
+        if isinstance(st, ast.Assign) and len(st.targets) == 1 and isinstance(st.targets[0], ast.Name):
+            try:
+                v = ev(st.value)
+            except Unsupported:
+                continue
+            if isinstance(v, frozenset):
+                out[st.targets[0].id] = v
+    return out
+
+
 def evaluate(node, la, consts):
     """evaluate a lookahead test for the token type `la` (short-circuit semantics as Python's)."""
     if isinstance(node, ast.Constant):
@@ -89,6 +129,10 @@ def evaluate(node, la, consts):
         op, rhs = node.ops[0], node.comparators[0]
         if isinstance(op, (ast.In, ast.NotIn)) and isinstance(rhs, (ast.List, ast.Tuple, ast.Set)):
             r = a in [evaluate(x, la, consts) for x in rhs.elts]
+            return r if isinstance(op, ast.In) else not r
+        if isinstance(op, (ast.In, ast.NotIn)) and isinstance(rhs, ast.Attribute) and isinstance(rhs.value, ast.Name) \
+           and rhs.value.id in ("blackbirdParser", "self") and isinstance(consts.get(rhs.attr), frozenset):
+            r = a in consts[rhs.attr]
             return r if isinstance(op, ast.In) else not r
         b = evaluate(rhs, la, consts)
         if isinstance(op, ast.Eq):
@@ -242,7 +286,8 @@ def rule_methods(ctx):
 
 
 def extract(ctx, fn):
-    consts = ctx.class_constants("py_parser", "blackbirdParser")
+    consts = dict(ctx.class_constants("py_parser", "blackbirdParser"))
+    consts.update(class_collections(ctx.py_class("py_parser", "blackbirdParser"), consts))
     ex = Extractor(consts, ctx.vocabulary()[2], ctx.parser_atn().max_token_type)
     ex.stmts(fn.body)
     return ex
@@ -339,6 +384,23 @@ def check_rule(ctx, r, fn, first):
                 bad = sorted(s.tokens - lk)
                 return fail(s.line, s.state, "lookahead test accepting {%s}" % ", ".join(ctx.token_name(t) for t in sorted(s.tokens)),
                             "%s cannot come next at this state (LOOK = {%s})" % ([ctx.token_name(t) for t in bad], ", ".join(ctx.token_name(t) for t in sorted(lk))))
+            # an inlined LL(1) decision tests for exactly the tokens that start ONE alternative of the decision it stands for (ANTLR emits
+            # altLook[i]); a token missing from the test makes the method refuse sentences the ATN accepts
+            cands = []
+            for d in sorted(eps_closure(atn, s.state)):
+                outs = [e for e in atn.states[d].edges if e.kind in ("EPSILON", "ACTION")]
+                if len(outs) >= 2:
+                    for e in outs:
+                        cands.append((d, lookmod.look(atn, e.target, first)))
+            exact = [c for c in cands if lookmod.EPS not in c[1]]
+            # (an alternative that can match nothing is tested with its own tokens plus whatever may FOLLOW the rule: only inclusion is checked)
+            open_ok = any(lookmod.EPS in c[1] and (c[1] - {lookmod.EPS}) <= s.tokens for c in cands)
+            if exact and not open_ok and not any(c[1] == s.tokens for c in exact) \
+               and not any(set().union(*[c[1] for c in exact if c[0] == d0]) == s.tokens for d0 in {c[0] for c in exact}):
+                near = min(exact, key=lambda c: len(c[1] ^ s.tokens))
+                return fail(s.line, s.state, "lookahead test accepting {%s}" % ", ".join(ctx.token_name(t) for t in sorted(s.tokens)),
+                            "no alternative of the decision at this state starts with exactly these tokens; nearest (decision state %d): {%s}; difference: %s"
+                            % (near[0], ", ".join(ctx.token_name(t) for t in sorted(near[1])), [ctx.token_name(t) for t in sorted(near[1] ^ s.tokens)]))
     # converse: every consuming / rule / predicate edge of the rule has a code site
     for st in atn.rule_states(r):
         if st.type == "RULE_STOP":
